@@ -74,6 +74,112 @@ def Lexable (srcs : List String) : List Tok → Bool
   | t :: .dot :: .isize s :: rest => suffixHostOk srcs t && Lexable srcs rest
   | t :: rest => simpleTokOk srcs t && Lexable srcs rest
 
+
+/-! ### Concrete tokens: the spellings the lexer knows, beyond the canonical one -/
+
+def hexDigitChar : Nat → Char
+  | 0 => '0' | 1 => '1' | 2 => '2' | 3 => '3' | 4 => '4' | 5 => '5' | 6 => '6' | 7 => '7' | 8 => '8' | 9 => '9'
+  | 10 => 'a' | 11 => 'b' | 12 => 'c' | 13 => 'd' | 14 => 'e' | _ => 'f'
+
+/-- hexadecimal digits of `n`, most significant first (`fuel` ≥ `n` suffices) -/
+def hexDigitsF : Nat → Nat → List Char
+  | 0, _ => ['0']
+  | f + 1, n => if n < 16 then [hexDigitChar n] else hexDigitsF f (n / 16) ++ [hexDigitChar (n % 16)]
+
+def hexDigits (n : Nat) : List Char := hexDigitsF n n
+
+/-- text of a fixed-spelling token given by its lexer name (`tokenText` row), or of a one-character literal -/
+def punctChars (name : String) : List Char :=
+  if BdGrammar.literals.contains name then name.toList else (tokText name).toList
+
+/-- token of a fixed-spelling lexer rule -/
+def punctTok (name : String) : Tok :=
+  if BdGrammar.literals.contains name then .other name else simpleTok name
+
+/-- the fixed-spelling tokens a text can contain on their own (all rows of `tokenText`, and the literals) -/
+def punctNames : List String :=
+  ["PLUS", "MINUS", "TIMES", "DIVIDE", "MOD", "NOT", "XOR", "LSHIFT", "RSHIFT", "LOR", "OR", "LAND", "AND", "LE", "LT", "GE", "GT",
+   "EQ", "NE", "LNOT", "RANGE", "ASSIGN", "LPAREN", "RPAREN", "LBRACE", "RBRACE", "COMMA", "PERIOD", "SEMI", "COLON",
+   "QUESTIONMARK", "DOLLAR", "@"]
+
+/-- a piece of concrete syntax: one spelling of a token (or a comment, which denotes no token) -/
+inductive CTok where
+  | tok (t : Tok)                          -- canonical spelling (decimal number, identifier, operator, `!`, `defined`, parentheses)
+  | sized (t : Tok) (s : IntSz)            -- `t.b` / `t.h` / `t.w`: host token, `.`, int size
+  | word (w : String)                      -- identifier-shaped word: identifier, keyword, source name, `true/false/yes/no`
+  | dec (ds : List Char)                   -- decimal literal, any digits Python's `int(_, 0)` accepts
+  | kilo (ds : List Char)                  -- `<digits>K`
+  | hex (upperX : Bool) (ds : List Char)   -- `0x<digits>` / `0X<digits>`, digits in either case
+  | chr (body : List Char)                 -- character literal `'body'`
+  | str (body : List Char)                 -- string literal `"body"`
+  | secname (body : List Char)             -- `$body` (section name glob)
+  | punct (name : String)                  -- any fixed-spelling token by its lexer name, or the literal `@`
+  | lineComment (hash : Bool) (body : List Char)   -- `#body⏎` or `//body⏎`
+  deriving Repr
+
+/-- decimal digit strings `int(text, 0)` accepts: not empty, no leading zero unless all digits are zero -/
+def decOk (ds : List Char) : Bool := !ds.isEmpty && ds.all Char.isDigit && (ds.head? != some '0' || ds.all (· == '0'))
+
+def isWordS (w : String) : Bool :=
+  match w.toList with
+  | [] => false
+  | c :: cs => isIdStart c && cs.all isIdChar
+
+/-- which pieces have the stated meaning (side conditions of the spelling) -/
+def CTok.ok (srcs : List String) : CTok → Bool
+  | .tok t => simpleTokOk srcs t
+  | .sized t _ => suffixHostOk srcs t
+  | .word w => isWordS w
+  | .dec ds => decOk ds
+  | .kilo ds => decOk ds
+  | .hex _ ds => !ds.isEmpty && ds.all isHexDigit
+  | .chr body => !body.isEmpty && body.all (fun c => c != '\'' && c != '\n')
+  | .str body => body.all (fun c => c != '"' && c != '\n')
+  | .secname body => !body.isEmpty && body.all isSectionNameChar
+  | .punct name => punctNames.contains name
+  | .lineComment _ body => body.all (· != '\n')
+
+/-- the characters of a piece -/
+def CTok.chars : CTok → List Char
+  | .tok t => tokChars t
+  | .sized t s => tokChars t ++ (tokChars .dot ++ tokChars (.isize s))
+  | .word w => w.toList
+  | .dec ds => ds
+  | .kilo ds => ds ++ ['K']
+  | .hex u ds => '0' :: (if u then 'X' else 'x') :: ds
+  | .chr body => '\'' :: body ++ ['\'']
+  | .str body => '"' :: body ++ ['"']
+  | .secname body => '$' :: body
+  | .punct name => punctChars name
+  | .lineComment h body => (if h then ['#'] else ['/', '/']) ++ body ++ ['\n']
+
+/-- the tokens a piece denotes -/
+def CTok.toks (srcs : List String) : CTok → List Tok
+  | .tok t => [t]
+  | .sized t s => [t, .dot, .isize s]
+  | .word w => [wordTok srcs w]
+  | .dec ds => [.num (decVal ds)]
+  | .kilo ds => [.num (decVal ds * 1024)]
+  | .hex _ ds => [.num (hexVal ds)]
+  | .chr body => [.num (charLitVal body)]
+  | .str body => [.str (String.ofList body)]
+  | .secname body => [.secname (String.ofList ('$' :: body))]
+  | .punct name => [punctTok name]
+  | .lineComment _ _ => []
+
+/-- separator rule: every piece is followed by exactly one blank (a line comment ends with its newline, then the blank) -/
+def renderC : List CTok → List Char
+  | [] => []
+  | ct :: rest => ct.chars ++ ' ' :: renderC rest
+
+def tokensC (srcs : List String) : List CTok → List Tok
+  | [] => []
+  | ct :: rest => ct.toks srcs ++ tokensC srcs rest
+
+def allOkC (srcs : List String) : List CTok → Bool
+  | [] => true
+  | ct :: rest => ct.ok srcs && allOkC srcs rest
+
 /-- text of a `bool_expr` / `expr` syntax tree (levels of the implementation) -/
 def printTextB (b : BExpr) : String := String.ofList (render (prB genLevels 0 b))
 def printTextE (e : Expr) : String := String.ofList (render (pr genLevels 0 e))
